@@ -23,6 +23,7 @@ type Opts struct {
 	BigCollections bool // occasionally 9..12 entries (crosses Go's 8-entry map bucket)
 	NoNaN          bool
 	NegZero        bool                              // allow -0.0 (off by default: Merge/Clone drop an implicit-presence -0, an upstream quirk outside the claimed properties)
+	LargeBytes     bool                              // occasionally 250..320-byte bytes values (a copy elided above a size threshold aliases the input; C14 only)
 	ForceLazy      bool                              // populate lazy fields (and message fields leading to them) with high probability
 	OnlyFields     map[protoreflect.FieldNumber]bool // restrict top-level fields (nil = all)
 }
@@ -90,6 +91,9 @@ func scalar(r *sim.Rng, fd protoreflect.FieldDescriptor, o *Opts) protoreflect.V
 		n := r.Intn(12)
 		if r.Chance(1, 8) {
 			n = r.Intn(80)
+		}
+		if o.LargeBytes && r.Chance(1, 12) {
+			n = 250 + r.Intn(71)
 		}
 		return protoreflect.ValueOfBytes(r.Bytes(n))
 	}
